@@ -194,6 +194,39 @@ pub const OBJECTS: [&str; 3] = [
     "{@display: || 42, @size: || 'x', @iterator: || 1, @next: || self, @<: |o| 'no', @==: |o| 1}",
 ];
 
+/// objects with partial / throwing / wrongly typed metakeys for the operator sweep
+pub const PARTIAL_OBJECTS: [&str; 22] = [
+    "{@<: |o| true}",
+    "{@==: |o| true}",
+    "{@<: (|o| false), @==: |o| false}",
+    "{@>: |o| true}",
+    "{@!=: |o| 1}",
+    "{@+: |o| throw koto.unimplemented}",
+    "{@r+: |o| 1, @r-: |o| throw 'r'}",
+    "{@+=: |o| 1}",
+    "{@next: || null}",
+    "{@next: (|| 1), @next_back: || null}",
+    "{@index: |i| i}",
+    "{@size: || 2}",
+    "{@size: (|| -1), @index: |i| throw 'x'}",
+    "{@call: 1}",
+    "{@display: 1, @debug: || throw 'g'}",
+    "{@iterator: || null}",
+    "{@negate: 1}",
+    "{@<: 5, @==: 'x', @+: null}",
+    "{@access: |k| throw 'a'}",
+    "{@access_assign: |k, v| null, @index_assign: |i, v| throw 'ia'}",
+    "{@base: {@<: |o| true}, @type: 'Child'}",
+    "{@meta tag: 1, @type: 7}",
+];
+
+pub const OPERATOR_FORMS: [&str; 36] = [
+    "a0 + a1", "a0 - a1", "a0 * a1", "a0 / a1", "a0 % a1", "a0 ^ a1", "a0 < a1", "a0 <= a1", "a0 > a1", "a0 >= a1", "a0 == a1", "a0 != a1",
+    "x = a0\n  x += a1\n  x", "x = a0\n  x -= a1\n  x", "x = a0\n  x *= a1\n  x", "x = a0\n  x /= a1\n  x", "x = a0\n  x %= a1\n  x", "x = a0\n  x ^= a1\n  x",
+    "-a0", "not a0", "size a0", "a0[a1]", "a0[0]", "x = a0\n  x[0] = a1\n  x", "a0.foo", "x = a0\n  x.foo = a1\n  x", "a0(a1)", "a0()",
+    "o = ''\n  for v in a0\n    o = o + '{v}'\n    if (size o) > 40\n      break\n  o", "'{a0}{a1}'", "'{a0:?}'", "(a0, a1) == (a1, a0)", "[a0].contains a1", "{k: a0} == {k: a1}", "match a0\n    (p, q...) then 1\n    {foo} then 2\n    else 3", "a0 < a1 < a0",
+];
+
 fn all_args() -> Vec<String> {
     let mut v: Vec<String> = POOL.iter().map(|s| s.to_string()).collect();
     v.extend(OBJECTS.iter().map(|s| s.to_string()));
@@ -387,7 +420,33 @@ fn run_shard(ctx: &mut Ctx) {
             }
         }
     }
+    // (c) operator and protocol sweep: every operator / protocol form over all ordered pairs of pool values
+    // and object definitions with partial, throwing and wrongly typed metakeys
+    let mut operands: Vec<String> = all_args();
+    operands.extend(PARTIAL_OBJECTS.iter().map(|s| s.to_string()));
+    let forms: Vec<&str> = OPERATOR_FORMS.to_vec();
+    let mut oidx: u64 = 0;
+    let mut ototal: u64 = 0;
+    for a in operands.iter() {
+        for b in operands.iter() {
+            // pairs of two plain pool values are covered by the texts; one side is an object here
+            if !(a.contains('@') || b.contains('@')) {
+                continue;
+            }
+            for form in forms.iter() {
+                ototal += 1;
+                oidx += 1;
+                if !ctx.mine(oidx) || ctx.too_many_failures() {
+                    continue;
+                }
+                let src = format!("a0 = {a}\na1 = {b}\nr = try\n  {}\ncatch e\n  'E'\nd = try\n  '{{r}}'\ncatch e\n  'E'\nr\n", form);
+                let case = json!({"kind": "libcall", "src": src, "may_exhaust": true});
+                ctx.run_case(&case, || eval_call(&src));
+            }
+        }
+    }
     if ctx.shard == 0 {
+        ctx.st.exhaustive_spaces.insert("operator-forms x operand pairs with an object".into(), ototal);
         ctx.st.exhaustive_spaces.insert("libcalls-arity<=2".into(), total2);
         ctx.note(format!("{} prelude functions x {} pool values (+{} risky first arguments where they cannot spin natively)", fns.len(), na, nr));
         ctx.note(format!("shard 0 timing: texts {:.1}s, library sweep {:.1}s", t_text.duration_since(t_start).as_secs_f64(), t_text.elapsed().as_secs_f64()));
